@@ -74,23 +74,26 @@ theorem C06_vec_end_to_end (c : Ctx) (rec : Rec) (sv : Val) (id : Nat) (tps : Li
       some (.specVec false sv (vecStructure c sv.tyName inner items (guardCap cap).toNat tps)) :=
   vec_end_to_end c rec sv id tps inner el n cap p blocks items hT hlen hn hcap hp hel hel0 hb hbl hrd hil hitems
 
-/-- **C06_vecdeque_end_to_end** (capacity within the guard): the deque is shown as exactly the logical sequence: item `i`
-    is the element decoder's result on the image in slot `(head + i) % cap` — for every ring position, wrapped or not. -/
+/-- **C06_vecdeque_end_to_end** (EVERY capacity, also above CAP_GUARD; repaired by 6655f7c): the memory at `p` holds the
+    ring buffer `buf` of `cap` slots ⇒ the deque is shown as exactly the logical sequence: item `i` is the element decoder's
+    result on the image in slot `(head + i) % cap` — for every ring position, wrapped or not; only the slots shown are
+    read (head part at its slot, wrapped part at slot 0) and only the capacity SHOWN goes through `guard_cap`. -/
 theorem C06_vecdeque_end_to_end (c : Ctx) (rec : Rec) (sv : Val) (id : Nat) (tps : List (String × Option Nat))
     (inner el n cap head p : Nat) (buf : Bytes) (items : List Val)
     (hT : lookupTParam tps "T" = some inner)
     (hlen : assumeScalarNumber sv "len" = some (n : Int)) (hn : (n : Int) ≤ LEN_GUARD)
     (hel : c.size inner = some el) (hel0 : 0 < el)
-    (hcap : extractCapacity c.ver sv = some cap) (hcg : CapWithinGuard cap) (hc0 : 0 < cap) (hnc : n ≤ cap)
+    (hcap : extractCapacity c.ver sv = some cap) (hc0 : 0 < cap) (hnc : n ≤ cap)
     (hhead : assumeScalarNumber sv "head" = some (head : Int)) (hh64 : head < 2 ^ 64)
-    (hp : assumePointer sv "pointer" = some p)
-    (hrd : c.rd p (cap * el) = some buf) (hbuf : buf.length = cap * el)
+    (hp : assumePointer sv "pointer" = some p) (haddr : p + cap * el < 2 ^ 64)
+    (hbuf : buf.length = cap * el)
+    (hrd : ∀ off len, off + len ≤ cap * el → c.rd (p + off) len = some ((buf.drop off).take len))
     (hil : items.length = n)
     (hitems : ∀ i (h : i < n) (h' : i < items.length),
       rec (some ⟨(buf.drop (((head + i) % cap) * el)).take el, some (p + ((head + i) % cap) * el)⟩) inner = some items[i]) :
     specialize c rec .vecdeque sv id tps =
-      some (.specVec true sv (vecStructure c sv.tyName inner items cap tps)) :=
-  deque_end_to_end c rec sv id tps inner el n cap head p buf items hT hlen hn hel hel0 hcap hcg hc0 hnc hhead hh64 hp hrd hbuf hil hitems
+      some (.specVec true sv (vecStructure c sv.tyName inner items (guardCap cap).toNat tps)) :=
+  deque_end_to_end c rec sv id tps inner el n cap head p buf items hT hlen hn hel hel0 hcap hc0 hnc hhead hh64 hp haddr hbuf hrd hil hitems
 
 /-- **C06_hashmap_end_to_end**: header fields found; the loaded 16-byte groups are the table's control bytes (with the
     tail invariant); the element decoder shows the pair `(k j, v j)` on the image of bucket `j`, located `(j + 1) * size`
@@ -126,7 +129,7 @@ def exDeque : Val := .struct "VecDeque<u8>" [some "head", some "len", some "buf"
 #guard assumeScalarNumber exDeque "head" == some 3
 #guard assumePointer exDeque "pointer" == some 1000
 #guard extractCapacity 89 exDeque == some 4
-#guard (specialize ⟨exG2, fun a n => if a = 1000 ∧ n = 4 then some [10, 11, 12, 13] else none, 89⟩
+#guard (specialize ⟨exG2, fun a n => if a = 1003 ∧ n = 1 then some [13] else if a = 1000 ∧ n = 1 then some [10] else none, 89⟩
           (parseInner ⟨exG2, fun _ _ => none, 89⟩ 2) .vecdeque exDeque 0 [("T", some 2)]).map render
         == some "Xdeq<VecDeque<u8>>T<VecDeque<u8>>{buf:A<[unknown]>[0:S<unknown>13,1:S<unknown>10],cap:S<usize>4}"
 
